@@ -114,6 +114,67 @@ func c05r1(c *Ctx) {
 				}
 			}
 		}
+		// every listed pair is written: within one turn of the loop the write is skipped only when the stored value already
+		// equals the listed one (a pair dropped for another reason — the key was seen before, the value is empty — is reported
+		// as success without being stored)
+		var header *ssa.BasicBlock
+		if ld, ok := call.Common().Args[0].(*ssa.UnOp); ok {
+			if ia, ok := ld.X.(*ssa.IndexAddr); ok {
+				if ph, ok := ia.Index.(*ssa.Phi); ok {
+					header = ph.Block()
+				} else if ph, ok := ia.X.(*ssa.Phi); ok {
+					header = ph.Block()
+				}
+			}
+		}
+		if header != nil && header.Parent() == s.In.Parent() {
+			wb := s.In.Block()
+			cut := map[edge]bool{}
+			for _, p := range wb.Preds {
+				cut[edge{p, wb}] = true
+			}
+			// what is stored under the key written: the results of the storage reads of that key
+			stored := map[string]bool{}
+			for _, bb := range s.In.Parent().Blocks {
+				for _, in2 := range bb.Instrs {
+					if rc, ok := in2.(*ssa.Call); ok && InvokeName(rc) == "AccountDataHandler.RetrieveValue" && s.Env.Term(rc.Call.Args[0]) == key {
+						stored[s.Env.Term(rc)+"#0"] = true
+					}
+				}
+			}
+			for ed, fs := range s.Env.EdgeFacts() {
+				for _, f := range fs {
+					isUnchanged := false
+					for st := range stored {
+						if f.Atom == eqAtom(val, st) || f.Atom == eqAtom(st, val) {
+							isUnchanged = true
+						}
+					}
+					if !f.Lin && f.Pos && isUnchanged {
+						cut[ed] = true // unchanged: nothing to write
+					}
+					if f.Lin && f.LE.isConst() && f.LE.k < 0 {
+						cut[ed] = true
+					}
+				}
+			}
+			skipped := ""
+			for _, p := range header.Preds {
+				if cut[edge{p, header}] || !reachableAvoiding(header, p, nil) || p == header {
+					continue // not a back edge
+				}
+				if wb != header && reachableAvoiding(header, p, cut) {
+					skipped = strings.Join(pathAvoiding(header, p, cut), "→")
+				}
+			}
+			if skipped == "" {
+				c.OK(rule, fnn, tag+" [every pair]", pos, "a turn of the loop reaches the next one only through the write or through `stored value == listed value`")
+			} else {
+				c.FailX(Oblig{Rule: rule, Func: fnn, Construct: tag + " [every pair]", Pos: pos, Kind: "violation",
+					Detail:   "a turn of the loop can go on to the next pair without the write and without the stored value being equal to the listed one (" + skipped + "): a listed pair is dropped while the call reports success",
+					Expected: "every listed pair is stored (or already is what is stored)"})
+			}
+		}
 		if pairOK && stride {
 			c.OK(rule, fnn, tag+" [listed pairs]", pos, "key = Arguments[i], value = Arguments[i+1], i = 0,2,4,…")
 		} else {
